@@ -10,6 +10,7 @@ pub mod c14;
 pub mod c15;
 pub mod c16;
 pub mod c18;
+pub mod c19;
 pub mod simutil;
 
 use crate::common::*;
@@ -29,6 +30,7 @@ pub fn run_property(ctx: &mut Ctx) -> bool {
         "C15" => c15::run(ctx),
         "C16" => c16::run(ctx),
         "C18" => c18::run(ctx),
+        "C19" => c19::run(ctx),
         _ => return false,
     }
     true
@@ -75,6 +77,7 @@ pub fn replay(body: &Value) -> i32 {
         "udp" => replay_part(&c16::UdpPart, body),
         "unack" => replay_part(&c18::C18Part, body),
         "cancel" => replay_part(&c10::C10Part, body),
+        "suspend" => replay_part(&c19::C19Part, body),
         "roundtrip" => replay_part(&c05::RtPart, body),
         "checksum" => replay_part(&c14::CkPart, body),
         "confinement" => replay_part(&c12::FsPart, body),
